@@ -1,6 +1,8 @@
 (* C06 -- the by-value iterator behaves as a double-ended, exact-size, fused queue.
    Only statements closed by [exact]; proofs live in theories/IterProofs.v. *)
-From GA Require Import Base Iter IterProofs.
+From Coq Require Import String.
+From GA Require Import Base Iter IterProofs MuRust IterTie.
+From GAGen Require Import GenIter.
 
 (* every finite history of operations on into_iter(a) returns exactly what the
    double-ended queue initialised with a returns, for every length *)
@@ -36,3 +38,43 @@ Proof. exact nth_overshoot. Qed.
 
 Theorem C06_no_ub : forall s o, Inv s -> args_ok o -> fst (step s o) <> VUB.
 Proof. exact step_no_ub. Qed.
+
+(* ---- tie to the current source (regenerated on every run by tools/ga2coq) ----
+   the method bodies of /repo/src/iter.rs, as translated into coq/gen/GenIter.v, compute
+   exactly the hub functions that the refinement theorems above are about; in particular no
+   index arithmetic under- or overflows and every get_unchecked is in bounds (the
+   interpreter would answer MUB) *)
+Theorem C06_source_next : forall s b, Inv s -> bounded s ->
+  call iter_table DEPTH "next" [] (embed s) b = lift3 (next s) b.
+Proof. exact tie_next. Qed.
+
+Theorem C06_source_next_back : forall s b, Inv s -> bounded s ->
+  call iter_table DEPTH "next_back" [] (embed s) b = lift3 (next_back s) b.
+Proof. exact tie_next_back. Qed.
+
+Theorem C06_source_nth : forall s b n, Inv s -> bounded s -> (0 <= n < two64)%Z ->
+  call iter_table DEPTH "nth" [VInt n] (embed s) b = lift4 (nth_ b s n).
+Proof. exact tie_nth. Qed.
+
+Theorem C06_source_nth_back : forall s b n, Inv s -> bounded s -> (0 <= n < two64)%Z ->
+  call iter_table DEPTH "nth_back" [VInt n] (embed s) b = lift4 (nth_back_ b s n).
+Proof. exact tie_nth_back. Qed.
+
+Theorem C06_source_len : forall s b, Inv s -> bounded s ->
+  call iter_table DEPTH "len" [] (embed s) b = (MRet (VInt (Z.of_nat (len s))), embed s, b, []).
+Proof. exact tie_len. Qed.
+
+Theorem C06_source_size_hint : forall s b, Inv s -> bounded s ->
+  call iter_table DEPTH "size_hint" [] (embed s) b =
+  (MRet (VPair (VInt (Z.of_nat (len s))) (VSome (VInt (Z.of_nat (len s))))), embed s, b, []).
+Proof. exact tie_size_hint. Qed.
+
+Theorem C06_source_as_slice : forall s b, Inv s -> bounded s ->
+  call iter_table DEPTH "as_slice" [] (embed s) b =
+  (MRet (VSlice (Z.of_nat (index s)) (Z.of_nat (back s))), embed s, b, []) /\
+  call iter_table DEPTH "as_mut_slice" [] (embed s) b =
+  (MRet (VSlice (Z.of_nat (index s)) (Z.of_nat (back s))), embed s, b, []).
+Proof. exact tie_as_slice. Qed.
+
+Theorem C06_source_into_iter : into_iter_init = [(FIndex, EInt 0); (FIndexBack, ELenN)].
+Proof. exact tie_into_iter. Qed.
